@@ -727,7 +727,7 @@ def gen_gibbs_scenario(r, legacy=False):
             kn["maxit"] = r.choice([5, 30])
         elif kind == "RegularizedLinearRTO":
             kn["maxit"] = r.choice([5, 30])
-            kn["stepsize"] = r.choice([0.005, 0.02])
+            kn["stepsize"] = r.choice([0.005, 0.02]) if legacy else r.choice([0.005, 0.02, "automatic"])
         if kind in ("MH", "CWMH", "MALA", "ULA", "NUTS", "PCN") and b in ("s", "d", "a", "l1", "l2"):
             kn["initial_point"] = [round(r.uniform(0.5, 2.0), 3)]
         strat[b] = {"kind": kind, "knobs": kn}
